@@ -45,4 +45,4 @@ def main(tier, seed):
                        'all 256 byte values in string and char literals, all pairs over 12 special bytes, escapes, random strings; '
                        'constant int/byte/bool/string arrays of lengths 0..40 global/local const/mutable; emitted .ascii and char '
                        'immediates unescaped by AsmText.tla', t0, extra_violations=extra, extra_cov=cov,
-                       presize_limit=6000, max_level=16000)
+                       presize_limit=13000, max_level=34000)
